@@ -234,12 +234,15 @@ pub fn run_c17(ctx: &mut Ctx) {
         let k = ctx.rng.random_range(1..=6);
         let mut v = vec![k as u64];
         let mut lengths = vec![];
-        let mean = ctx.rng.random_bool(0.7);
+        // the aggregation is a property of the ITEM (every grouping carries its own): half of the batches mix the two
+        let batch_mean = ctx.rng.random_bool(0.7);
+        let mixed = ctx.rng.random_bool(0.5);
         for _ in 0..k {
+            let mean = if mixed { ctx.rng.random_bool(0.5) } else { batch_mean };
             let c = rand_common(ctx, false);
             let kind = Kind::Byte { cp_groups: ctx.rng.random_bool(0.5), pad_to: None };
             let mut s = tok_text(ctx, 8, &c.tokens);
-            if ctx.rng.random_range(0..6) == 0 {
+            if ctx.rng.random_range(0..3) == 0 {
                 // multi-byte / multi-code-point characters inside otherwise plain ASCII text
                 let at = ctx.rng.random_range(0..=s.len());
                 if s.is_char_boundary(at) {
